@@ -603,6 +603,22 @@ func TestC04(t *testing.T) {
 	r := mon.Start(t, "C04")
 	defer r.Close()
 	fixtures := fileFixtures(newRand(r.SeedFor("fixtures")), !r.Quick())
+	{
+		// interior nodes that record fewer block sizes than they have links (the first child's only): the
+		// others have to be measured; dag-pb leaves, with and without a declared file size, and raw leaves
+		fr := newRand(r.SeedFor("fixtures-fewer"))
+		for _, o := range []handFileOpts{
+			{Width: 3, PBLeaves: true, LeafType: 2, FewerBlockSizes: true},
+			{Width: 3, PBLeaves: true, LeafType: 2, FewerBlockSizes: true, NoFileSize: true},
+			{Width: 2, PBLeaves: true, LeafType: 0, FewerBlockSizes: true},
+			{Width: 3, PBLeaves: false, FewerBlockSizes: true},
+		} {
+			st := store.New()
+			content := gen.Content(fr, "rand", 43)
+			root, _ := handFile(st, splitChunks(content, 5), o)
+			fixtures = append(fixtures, mkFixture("hand-"+handName(o), st, root, content))
+		}
+	}
 	per := r.Pick(500, 20000)
 	for _, f := range fixtures {
 		f := f
